@@ -43,7 +43,8 @@ func removeTwoNodeCycles(g *graph.DGraph) {
 
 	for _, e := range g.Edges {
 		a, b := e.From, e.To
-		if seen[pair{a, b}] || seen[pair{b, a}] {
+		// only an edge in the opposite direction forms a two-node cycle; a parallel edge (same direction) doesn't
+		if seen[pair{b, a}] {
 			rev[e] = true
 		} else {
 			seen[pair{a, b}] = true
